@@ -403,7 +403,7 @@ def standard_run(ctx, mod):
     if ctx.replay_case is not None:
         idx = [ctx.replay_case]
     else:
-        idx = list(range(mod.N[ctx.tier]))
+        idx = list(range(int(os.environ.get("VERIF_N", mod.N[ctx.tier]))))
     budget = getattr(mod, "BUDGET", DEFAULT_BUDGET)[ctx.tier]
     if idx and idx[0] >= 0:
         run_cases(ctx, mod.case, idx, agg, budget=budget,
